@@ -96,6 +96,13 @@ func (c *deferInfoCollector) outermostListFieldIndex() int {
 	parentType := c.Walker.TypeDefinitions[0]
 	fieldIdx := -1
 	for _, ancestor := range c.Walker.Ancestors {
+		if ancestor.Kind == ast.NodeKindInlineFragment && c.operation.InlineFragmentHasTypeCondition(ancestor.Ref) {
+			// a type condition changes the type the following fields are looked up on
+			if narrowed, ok := c.definition.NodeByName(c.operation.InlineFragmentTypeConditionName(ancestor.Ref)); ok {
+				parentType = narrowed
+			}
+			continue
+		}
 		if ancestor.Kind != ast.NodeKindField {
 			continue
 		}
